@@ -86,6 +86,21 @@ func evJanitor(base string, backend string, firstMs, lastMs int) string {
 	window := 12 * time.Duration(min(firstMs, lastMs)) * time.Millisecond
 	time.Sleep(window)
 	cycles := int(metrics.Global.Cache.CleanupRuns.Get() - start)
+	if lastMs < firstMs && cycles < 2 {
+		// the latest interval is the short one: a task that follows it keeps producing cycles. On a loaded machine the
+		// window above may be too short to see two of them; keep looking, bounded by time this process was scheduled
+		limit := runningFor(3 * time.Second)
+	poll:
+		for cycles < 2 {
+			select {
+			case <-limit:
+				break poll
+			default:
+				time.Sleep(time.Millisecond)
+			}
+			cycles = int(metrics.Global.Cache.CleanupRuns.Get() - start)
+		}
+	}
 	// one of the two intervals is short (cycles keep coming), the other very long (no cycle in the window)
 	followsShort := cycles >= 2
 	if cycles == 1 {
@@ -228,10 +243,22 @@ func evRetime(base string, backend string, waitMs, newMs int) string {
 	time.Sleep(time.Duration(waitMs) * time.Millisecond)
 	start := metrics.Global.Cache.CleanupRuns.Get()
 	cfg.Cache.CleanupInterval.Overwrite(duration.Duration(time.Duration(newMs) * time.Millisecond))
-	time.Sleep(time.Duration(6*newMs+30) * time.Millisecond)
-	cycles := int(metrics.Global.Cache.CleanupRuns.Get() - start)
-	if cycles >= 2 {
-		return "follows:latest"
+	// a task that follows the new interval produces its second cycle after about 2*newMs; the wait is bounded by time this
+	// process was actually scheduled (a loaded or suspended machine must not look like a task that kept the old interval)
+	cycles := 0
+	limit := runningFor(3 * time.Second)
+poll:
+	for {
+		cycles = int(metrics.Global.Cache.CleanupRuns.Get() - start)
+		if cycles >= 2 {
+			return "follows:latest"
+		}
+		select {
+		case <-limit:
+			break poll
+		default:
+			time.Sleep(time.Millisecond)
+		}
 	}
 	return "follows:older;cycles=" + strconv.Itoa(cycles)
 }
@@ -252,7 +279,7 @@ func evLogLevel(base string, lvl int) string {
 		l := slog.Default()
 		return l.Enabled(context.Background(), slog.Level(lvl)) && !l.Enabled(context.Background(), slog.Level(lvl-1))
 	}
-	dl := time.Now().Add(time.Second)
+	dl := time.Now().Add(5 * time.Second)
 	for !ok() && time.Now().Before(dl) {
 		time.Sleep(200 * time.Microsecond)
 	}
